@@ -25,7 +25,8 @@ Kinds == {"function", "async", "method", "nested", "class"}
 \* does not (LineScan.tla's counterexamples: a string default ending in an escaped backslash `sep="\\"`; an apostrophe in a comment inside a
 \* multi-line header) -- the scanner does not find the end of the header, the chunk swallows the body
 Sigs == {"plain", "defaults", "annotated", "varargs", "kwonly", "multiline", "multiline_comment", "decorated", "odd_defaults", "posonly",
-         "esc_backslash", "comment_apostrophe"}
+         "esc_backslash", "comment_apostrophe", "decorated_call"}
+\* "decorated_call": a decorator that is itself a call with arguments (`@decorate_with(maxsize=None)`): its `(` stands before the header's own
 Misscanned == {"esc_backslash", "comment_apostrophe"}
 \* "types_only": a ReST docstring that holds nothing but `:type` / `:rtype:` lines; "blank": `""" """` -- docstrings that re-emit as EMPTY
 \* under some configurations (then the docstring statement is deleted)
@@ -39,7 +40,7 @@ Defs == {d \in [kind : Kinds, sig : Sigs, doc : Docs, body : Bodies] :
            /\ (d.body = "doconly" => d.doc # "none" /\ d.sig \in {"plain", "defaults", "annotated"})
            /\ (d.doc \in {"types_only", "blank"} => d.sig \in {"plain", "defaults", "annotated"})}
 Programs == {<<d>> : d \in Defs} \cup (IF MaxDefs >= 2 THEN {<<d, e>> : d \in {x \in Defs : x.body = "oneline" \/ x.sig \in {"plain", "multiline_comment"}},
-                                                                          e \in {x \in Defs : x.sig \in {"annotated", "decorated", "varargs", "odd_defaults"}
+                                                                          e \in {x \in Defs : x.sig \in {"annotated", "decorated", "decorated_call", "varargs", "odd_defaults"}
                                                                                                /\ x.body # "doconly" /\ x.doc \notin {"types_only", "blank"}}}
                                        ELSE {})
 Cfgs == [style : {"rest", "google", "numpydoc"}, annotations : BOOLEAN]
